@@ -480,3 +480,64 @@ theorem compressedLen_le_vec (t : Table) (h : WellFormed t) (xs : List UInt8) :
   omega
 
 end Tw.Huffman
+
+namespace Tw.Huffman
+
+/-! ### `decompressFast` is `decompress` -/
+
+theorem decBitsF_eq (t : Table) (cap : Nat) (bits : List Bool) :
+    ∀ (rem nd : Nat) (out : List UInt8), rem + out.length = cap →
+      decBitsF t rem nd out bits = decBits t cap nd out bits := by
+  induction bits with
+  | nil => intro rem nd out _; rfl
+  | cons b bs ih =>
+    intro rem nd out h
+    rcases decStep_cases t cap nd out b with ⟨hge, hs⟩ | ⟨he, hs⟩ | ⟨hl, hc, hs⟩ | ⟨hl, hc, hs⟩ <;>
+      simp only [decBits, decBitsF, hs]
+    · rw [if_pos hge]; exact ih _ _ _ h
+    · have n1 : ¬ child t nd b ≥ NUM_SYMBOLS := by rw [he]; decide
+      rw [if_neg n1, if_pos he]
+    · have n1 : ¬ child t nd b ≥ NUM_SYMBOLS := by simp only [NUM_SYMBOLS, EOF] at *; omega
+      have n2 : ¬ child t nd b = EOF := by omega
+      rw [if_neg n1, if_neg n2, if_pos (by omega)]
+    · have n1 : ¬ child t nd b ≥ NUM_SYMBOLS := by simp only [NUM_SYMBOLS, EOF] at *; omega
+      have n2 : ¬ child t nd b = EOF := by omega
+      rw [if_neg n1, if_neg n2, if_neg (by omega)]
+      exact ih _ _ _ (by simp only [List.length_cons]; omega)
+
+theorem decZerosF_eq (t : Table) (cap : Nat) (fuel : Nat) :
+    ∀ (rem nd : Nat) (out : List UInt8), rem + out.length = cap →
+      decZerosF t rem fuel nd out = decZeros t cap fuel nd out := by
+  induction fuel with
+  | zero => intro rem nd out _; rfl
+  | succ f ih =>
+    intro rem nd out h
+    rcases decStep_cases t cap nd out false with ⟨hge, hs⟩ | ⟨he, hs⟩ | ⟨hl, hc, hs⟩ | ⟨hl, hc, hs⟩ <;>
+      simp only [decZeros, decZerosF, hs]
+    · rw [if_pos hge]; exact ih _ _ _ h
+    · have n1 : ¬ child t nd false ≥ NUM_SYMBOLS := by rw [he]; decide
+      rw [if_neg n1, if_pos he]
+    · have n1 : ¬ child t nd false ≥ NUM_SYMBOLS := by simp only [NUM_SYMBOLS, EOF] at *; omega
+      have n2 : ¬ child t nd false = EOF := by omega
+      rw [if_neg n1, if_neg n2, if_pos (by omega)]
+    · have n1 : ¬ child t nd false ≥ NUM_SYMBOLS := by simp only [NUM_SYMBOLS, EOF] at *; omega
+      have n2 : ¬ child t nd false = EOF := by omega
+      rw [if_neg n1, if_neg n2, if_neg (by omega)]
+      exact ih _ _ _ (by simp only [List.length_cons]; omega)
+
+/-- for every table, input and capacity (no hypothesis) -/
+theorem decompressFast_eq (t : Table) (input : List UInt8) (cap : Nat) :
+    decompressFast t input cap = decompress t input cap := by
+  simp only [decompressFast, decompress]
+  rw [decBitsF_eq t cap _ cap ROOT_IDX [] (by simp)]
+  have hb := decBits_bound t cap (input.flatMap byteBits) ROOT_IDX [] (by simp)
+  revert hb
+  generalize decBits t cap ROOT_IDX [] (input.flatMap byteBits) = R
+  cases R with
+  | fin r => intro _; rfl
+  | more nd out =>
+    intro hb
+    simp only at hb ⊢
+    exact decZerosF_eq t cap _ _ nd out (by omega)
+
+end Tw.Huffman
